@@ -70,7 +70,7 @@ def _get_basilisp_bytecode(
         message = f"Reached EOF while reading timestamp in {fullname}"
         logger.debug(message)
         raise EOFError(message)
-    elif _r_long(raw_timestamp) != mtime:
+    elif raw_timestamp != _w_long(mtime):
         message = f"Non-matching timestamp ({_r_long(raw_timestamp)}) in {fullname} bytecode cache; expected {mtime}"
         logger.debug(message)
         raise ImportError(message, **exc_details)
